@@ -132,13 +132,14 @@ def switch_histories(label, quick):
         # a cache written under a non-default regime, a derivation, a query on the derived operator
         for a in (["chol0"] if label == "Dense" else ["cg", "cg2"]) + ([] if quick else ["nofast", "chol0_noroot"]):
             for w in SW_WRITERS:
-                for d in D_CORE:
+                for d in ([D_CORE[0], D_CORE[2], D_CORE[3], D_CORE[4]] if quick else D_CORE):
                     for r in SW_READERS:
                         H(S_(a), Q_(w), D_(d), Q_(r))
         # ... and with the switch between the write and the derivation
-        pairs = [("default", "chol0"), ("chol0", "default"), ("cg", "cg2"), ("cg2", "cg")]
+        pairs = [("default", "chol0"), ("chol0", "default")] if label == "Dense" else [("cg", "cg2"), ("cg2", "cg")]
         if not quick:
-            pairs += [("default", "cg"), ("cg", "default"), ("nofast", "default"), ("default", "nofast")]
+            pairs = [("default", "chol0"), ("chol0", "default"), ("cg", "cg2"), ("cg2", "cg"),
+                     ("default", "cg"), ("cg", "default"), ("nofast", "default"), ("default", "nofast")]
         for a, b in pairs:
             for w in SW_WRITERS:
                 for d in SW_DERIVS:
@@ -167,19 +168,26 @@ def shared_base_histories(label, quick):
     out = []
     if label not in ("Dense", "AddedDiag(Dense,ConstantDiag)", "Kron(Dense,Dense)", "Toeplitz"):
         return out
-    if label in ("Kron(Dense,Dense)", "Toeplitz") and quick:
+    small = label in ("Kron(Dense,Dense)", "Toeplitz")
+    if not quick:
+        ders, ws, qs = D_CORE, SW_WRITERS, Q_CORE
+    elif small:
         ders, ws, qs = [D_CORE[0], D_CORE[1], D_CORE[6]], SW_WRITERS, SW_READERS
     else:
-        ders, ws, qs = D_CORE, SW_WRITERS, Q_CORE
+        ders, ws, qs = D_CORE, SW_WRITERS, SW_READERS + [["svd"], ["eigh"], ["diagonalization", [], []]]
     for d in ders:
         for w in ws:
             for q in qs:
                 out.append([("d", d, False), ("q", w, False), ("q", q, True)])
+    d1s = [["add_jitter", 0], ["add_diagonal", 1], ["scale", 0], ["transpose"]]
     d2s = [["add_jitter", 1], ["add_diagonal", 0], ["scale", 1]]
-    for d in [["add_jitter", 0], ["add_diagonal", 1], ["scale", 0], ["transpose"]]:
+    q2s = SW_READERS + [["svd"], ["eigh"]]
+    if quick:
+        d1s, d2s, q2s = (d1s[:2], d2s[:1], SW_READERS) if small else (d1s[:3], d2s[:2], SW_READERS)
+    for d in d1s:
         for w in ws:
             for d2 in d2s:
-                for q in SW_READERS + [["svd"], ["eigh"]]:
+                for q in q2s:
                     out.append([("d", d, False), ("q", w, False), ("d", d2, True), ("q", q, False)])
     return out
 
